@@ -21,8 +21,8 @@ BK  == {"b:k", "b:nil", "b:empty", "nb:k", "empty:k", "b:x|y", "a|b:k", "b:zz"} 
 BKq == {"b:k", "b:nil", "nb:k", "empty:k", "b:x|y"}
 V   == {"v", "nil", "empty", "a"}                                     \* "a": an element of the preloaded list and set
 VS  == {"none", "v", "v,v", "nil", "empty,x|y", "a,b"}                \* variadic values
-I   == {"min", "-5", "-1", "0", "1", "2", "5", "max"}
-Iq  == {"min", "-1", "0", "2", "max"}
+I   == {"min", "-5", "-1", "0", "1", "2", "5", "7", "max"}
+Iq  == {"min", "-1", "0", "2", "7", "max"}
 F   == {"nan", "+inf", "-inf", "0", "1.5", "-1"}
 R   == {".*", "("}
 T   == {"0", "1", "max"}
